@@ -8,6 +8,8 @@ import Gnet.Spec.ReactorSpec
 import Gnet.Proofs.ReactorBytes
 import Gnet.Spec.ReactorExample
 import Gnet.Proofs.ReactorRuns
+import Gnet.Props.C10
+import Gnet.Props.C11
 namespace Gnet.Props.C02
 open Gnet.Reactor
 
@@ -26,5 +28,17 @@ theorem outbound_integrity_all_histories (cfg : Cfg) (rounds : List (List Tok)) 
 
 /-! Non-vacuity: in the recorded history the OnOpen reply [104, 105] is accepted and handed to the kernel. -/
 example : (Example.after 1).bind Example.bytesView = some [[], [], [104, 105], [104, 105]] := by decide +kernel
+
+/-! ### What the abstraction of the reactor model rests on
+
+The reactor model keeps the outbound buffer of a connection as a list of bytes. In the code it is an `elastic.Buffer` (a
+ring buffer up to a static size, a linked list of copied segments beyond it); that it behaves as that list under every
+operation sequence is the refinement of C10 / C11, restated here because the theorems above are about the code only
+together with it. The check of C02 therefore also runs the correspondence of the two buffer models with the real
+buffers. -/
+
+theorem outbound_buffer_is_fifo : type_of% @Gnet.Props.C10.elastic_run_refines := @Gnet.Props.C10.elastic_run_refines
+
+theorem overflow_list_is_fifo : type_of% @Gnet.Props.C11.ll_run_refines := @Gnet.Props.C11.ll_run_refines
 
 end Gnet.Props.C02
